@@ -861,3 +861,47 @@ def rule_EQ1(ctx):
         raise AnalysisError('BitStore.__eq__: comparison form not recognised (needs a human)')
     r.ok('BitStore.__eq__')
     return r
+
+
+def rule_ITER1(ctx):
+    """A caller-supplied iterable (possibly a one-shot iterator) is consumed at most once on every path."""
+    m = ctx.m
+    r = RuleResult('ITER1', 'possibly one-shot iterables are iterated at most once per path')
+    consumers = ('list', 'tuple', 'set', 'sorted', 'sum', 'max', 'min', 'any', 'all', 'zip', 'enumerate', 'iter', 'frozenset', 'bytes', 'bytearray')
+    n = 0
+    for f in m.funcs.values():
+        if f.cls not in FAMILY and f.cls != 'Array':
+            continue
+        cands = set()
+        for a in f.node.args.posonlyargs + f.node.args.args:
+            ann = ast.unparse(a.annotation) if a.annotation is not None else ''
+            if 'Iterable' in ann or ann in ('BitsType', 'Any'):
+                cands.add(a.arg)
+        for x in own_walk(f.node):
+            if isinstance(x, ast.Call) and isinstance(x.func, ast.Name) and x.func.id == 'isinstance' and len(x.args) == 2 and 'Iterable' in ast.unparse(x.args[1]) \
+                    and isinstance(x.args[0], ast.Name):
+                cands.add(x.args[0].id)
+        for p in sorted(cands):
+            def uses(stmts):
+                out = []
+                for s0 in stmts:
+                    for y in ast.walk(s0):
+                        if isinstance(y, (ast.For, ast.comprehension)) and isinstance(y.iter, ast.Name) and y.iter.id == p:
+                            out.append(y.iter)
+                        if isinstance(y, ast.Call) and any(isinstance(a, ast.Name) and a.id == p for a in y.args):
+                            fn = ast.unparse(y.func)
+                            if fn in consumers or fn.endswith('bitarray.bitarray') or fn.endswith('.join') or fn.endswith('.extend'):
+                                out.append(y)
+                return out
+            for t in [x for x in own_walk(f.node) if isinstance(x, ast.Try)]:
+                a, b = uses(t.body), [u for h in t.handlers for u in uses(h.body)]
+                n += 1
+                if a and b:
+                    r.fail(f.key, f'{p}: {norm(a[0])[:40]} then {norm(b[0])[:40]}', f"'{p}' may be a one-shot iterator (generator, map, iter()): it is consumed in the "
+                           'try body and again in the exception handler, where the items already taken are lost — the result differs from that of a list with '
+                           'the same items', loc=f.loc(b[0]))
+                else:
+                    r.ok(None)
+        r.constructs.add(f.key)
+    r.ok('census', {'instance': 'iterable-consuming try blocks', 'count': n})
+    return r
